@@ -1720,7 +1720,11 @@ Examples:
         def func(x, *args, **kwds):
             xtype = type(x)
             x = asarray(list(x)) #XXX: faster to use array(x, copy=True) ?
-            x[[i for i in index if i < len(x)]] = target
+            if hasattr(target, '__len__'): # drop a target with its index
+                at = [(i,t) for (i,t) in zip(index, target) if i < len(x)]
+                if at: x[[i for (i,t) in at]] = [t for (i,t) in at]
+            else:
+                x[[i for i in index if i < len(x)]] = target
             if not type(x) is xtype: x = xtype(x) #XXX: xtype(x.tolist()) ?
             return f(x, *args, **kwds)
         func.__wrapped__ = f   #XXX: getattr(f, '__wrapped__', f) ?
